@@ -167,8 +167,11 @@ def replay(mix):
         from bounded import scen
         logging.getLogger("gtirb_rewriting").setLevel(logging.CRITICAL)
         bad = []
-        # a 12-nop block; the mix at spread offsets and back to back
-        for offs in ([1, 4, 8], [0, 2, 4], [2, 2, 2] if all(x == "ins" for x in mix) else [3, 5, 7]):
+        # a block of 12 distinct one-byte instructions; the mix at spread offsets and back to back; plain patches and patches with an
+        # INTERNAL label (their last block -- not the rest of the original block -- can be what insert() hands back)
+        import itertools
+        ends = [[12, 12, 12]] if all(x == "ins" for x in mix) else []      # (byte-string patches are for data blocks: not used here)
+        for offs, labelled in itertools.product(([1, 4, 8], [0, 2, 4], [2, 2, 2] if all(x == "ins" for x in mix) else [3, 5, 7], [0, 5, 11], *ends), (False, True)):
             ir, m = create_test_module(gtirb.Module.FileFormat.ELF, gtirb.Module.ISA.X64)
             _, bi = add_text_section(m, address=0x1000)
             pre = add_code_block(bi, b"\x51")
@@ -181,25 +184,33 @@ def replay(mix):
             for k, kind in enumerate(mix):
                 o_ = offs[k]
                 if kind == "ins":
-                    rc.insert_at(blk, o_, scen.mkpatch("nop"))
-                    edits.append((o_, 0, b"\x90"))
+                    txt, new = ("int3\n.Lq%d:\nnop\nnop" % k, b"\xcc\x90\x90") if labelled is True else ("nop", b"\x90")
+                    if labelled == "bytes":
+                        new = bytes([0xa0 + k])
+                    rc.insert_at(blk, o_, new if labelled == "bytes" else scen.mkpatch(txt))
+                    edits.append((o_, 0, new))
                 elif kind == "rep":
-                    rc.replace_at(blk, o_, 1, scen.mkpatch("nop\nnop"))
-                    edits.append((o_, 1, b"\x90\x90"))
+                    txt, new = ("int3\n.Lq%d:\nnop" % k, b"\xcc\x90") if labelled is True else ("nop\nnop", b"\x90\x90")
+                    if labelled == "bytes":
+                        new = bytes([0xb0 + k, 0xb8 + k])
+                    rc.replace_at(blk, o_, 1, new if labelled == "bytes" else scen.mkpatch(txt))
+                    edits.append((o_, 1, new))
                 else:
                     rc.delete_at(blk, o_, 1)
                     edits.append((o_, 1, b""))
             try:
                 rc.apply()
             except Exception as ex:      # noqa
-                bad.append({"mix": list(mix), "offsets": offs[:len(mix)], "observed": "%s: %s" % (type(ex).__name__, str(ex)[:100])})
+                bad.append({"mix": list(mix), "offsets": offs[:len(mix)], "labelled patches": labelled, "observed": "%s: %s" % (type(ex).__name__, str(ex)[:100])})
                 continue
-            for o_, l_, new in sorted(edits, key=lambda e: -e[0]):
+            # registration order at equal offsets: the earlier one comes first in the listing
+            for idx in sorted(range(len(edits)), key=lambda i: (-edits[i][0], -i)):
+                o_, l_, new = edits[idx]
                 want[o_:o_ + l_] = new
             got = bytes(bi.contents)
             exp = b"\x51" + bytes(want) + b"\xc3"
             if got != exp:
-                bad.append({"mix": list(mix), "offsets": offs[:len(mix)], "observed": got.hex(), "expected": exp.hex()})
+                bad.append({"mix": list(mix), "offsets": offs[:len(mix)], "labelled patches": labelled, "observed": got.hex(), "expected": exp.hex()})
         return {"confirmed": bool(bad), "failures": bad[:2]}
     return rp
 
